@@ -21,11 +21,14 @@ type scanSpec struct {
 	key   string // table:key of the collection (hscan, sscan, zscan)
 	count int    // 0: no COUNT argument
 	match string // "": no MATCH argument
-	start string // element name to start after (forward) / before (reverse); "": from the beginning
+	// qualified: the pattern is sent as table:pattern (the form the
+	// implementation matches key names against)
+	qualified bool
+	start     string // element name to start after (forward) / before (reverse); "": from the beginning
 }
 
 func (sp scanSpec) String() string {
-	return fmt.Sprintf("%s rev=%v type=%s table=%q key=%q count=%d match=%q start=%q", sp.cmd, sp.rev, sp.typ, sp.table, sp.key, sp.count, sp.match, sp.start)
+	return fmt.Sprintf("%s rev=%v type=%s table=%q key=%q count=%d match=%q table-qualified=%v start=%q", sp.cmd, sp.rev, sp.typ, sp.table, sp.key, sp.count, sp.match, sp.qualified, sp.start)
 }
 
 func (sp scanSpec) keyScan() bool { return sp.cmd == "scan" || sp.cmd == "advscan" }
@@ -103,7 +106,11 @@ func (s *sim) scanPage(sp scanSpec, cursor string) (els []string, vals []string,
 		args = []string{sp.name(), nodeh.NS + ":" + sp.key, cursor}
 	}
 	if sp.match != "" {
-		args = append(args, "match", sp.match)
+		if sp.qualified {
+			args = append(args, "match", sp.table+":"+sp.match)
+		} else {
+			args = append(args, "match", sp.match)
+		}
 	}
 	if sp.count > 0 {
 		args = append(args, "count", strconv.Itoa(sp.count))
@@ -196,7 +203,7 @@ func (s *sim) keyScan(sp scanSpec, between func([]string)) ([]string, int, strin
 
 // ---- the scan scenario ---------------------------------------------------------------
 
-var scanTables = [][]string{{"t", "ta", "t0"}, {"ab", "a", "abc"}, {"t", "t\x00", "u"}, {"T", "t", "S"}, {"t", "t;", "t\xff"}}
+var scanTables = [][]string{{"t", "ta", "t0"}, {"ab", "a", "abc"}, {"t", "t\x00", "u"}, {"T", "t", "S"}, {"t", "t;", "t~"}}
 
 var namePool = []string{"a", "aa", "ab", "b", "a:", "a:b", ":", "::", ":a", "\xff", "\xff\xff", "\x00", "\x00\x00", "0", "9", "z", "zz", "a\x00", "a\xff", "A", "~",
 	"k0", "k1", "k2", "k3", "k4", "k5", "k6", "k7", "k8", "k9", "k10", "k11", "t:", "t:a", ";", "ta", "t"}
@@ -262,6 +269,7 @@ func (s *sim) removeKey(w *world, typ, table, name string) {
 	cmd := map[string]string{"kv": "del", "list": "lclear", "hash": "hclear", "set": "sclear", "zset": "zclear"}[typ]
 	if s.must(cmd, k) {
 		delete(w.ks(typ, table), name)
+		delete(w.mem, typ+"|"+k)
 	}
 }
 
@@ -391,6 +399,7 @@ func (s *sim) scanScenario() {
 		sp.rev = t.Bool(300)
 		if t.Bool(250) {
 			sp.match = matchPool[t.Choose(len(matchPool))]
+			sp.qualified = sp.keyScan() && t.Bool(700)
 		}
 		if sp.rev {
 			sp.start = revStart
@@ -565,8 +574,16 @@ func (s *sim) runChain(sp scanSpec, w *world, tables, collKeys []string, interf 
 		c.Probe("scan_multi_page_merged")
 	}
 	ctx := "iteration " + sp.String()
+	nul := strings.Contains(sp.start, "\x00")
+	for _, m := range []map[string]bool{initial, added} {
+		for e := range m {
+			if strings.Contains(e, "\x00") {
+				nul = true
+			}
+		}
+	}
 	viol := func(rule, format string, args ...interface{}) {
-		c.Violate(s.prop("C13"), rule, known13(sp, rule, pages), "%s: %s", ctx, fmt.Sprintf(format, args...))
+		c.Violate(s.prop("C13"), rule, known13(sp, rule, pages, s.cfg.engine, nul), "%s: %s", ctx, fmt.Sprintf(format, args...))
 	}
 	if err != "" {
 		viol("scan-failed", "after %d pages: %s", pages, err)
